@@ -101,6 +101,10 @@ class DAETimeSeries:
         self.unpack_np(attr=attr, warn_empty=warn_empty)
         if df is True:
             self.unpack_df(attr=attr)
+        else:
+            # cached dataframes no longer match the arrays; they are rebuilt on the next access
+            for name in ('df_x', 'df_y', 'df_z', 'df_xy', 'df_xyz'):
+                self.__dict__.pop(name, None)
 
         return True
 
